@@ -1,6 +1,7 @@
 import Rare.Base.Proto
 import Rare.Model.C07NumF64
 import Rare.Model.C07NumErr
+import Rare.Model.C07NumHist
 /-!
 Driver ops of C07 for the numerical aggregator over the software binary64 model
 (`Rare/Model/C07NumF64.lean`), see `harness/corr/c07numf64.go`:
@@ -13,6 +14,13 @@ Driver ops of C07 for the numerical aggregator over the software binary64 model
                                          `meanErrBound` / `varianceErrBound` of the exact rational statistics
                                          (`num_f64_error_check_true`: always 1 1 inside the class; the Go side
                                          checks the REAL aggregator with math/big)
+
+  agg numh <keep> <rev> <ops> <ps>       ONE aggregator, calls in order (`;`-joined): 16 hex digits = Samplef(bits),
+                                         `s<hex>` = Sample(string), `a` = Analyze() (sorts the stored values IN PLACE,
+                                         `Model/C07NumHist.lean`); after every Analyze() `A median=… mode=… q[…] ranks[…]`
+                                         (ranks = the whole view through Quantile((i+0.5)/n), at most 64).  The driver
+                                         also checks every view against a fresh sort of ALL samples kept so far
+                                         (`num_f64_analyze_any_schedule`) and answers `model-vs-spec …` if they differ.
 
 After every sample: count, parse errors, and the exact bit patterns of Mean, Variance, StdDev, Min, Max
 (`nan` for any NaN; the sign of a zero IS compared).  At the end Median, Mode and the quantiles – here both
@@ -83,7 +91,51 @@ def run (keep rev : Bool) (items : List (Option F64)) (ps : List F64) : String :
       let last := s!"median={showZ (medianF ordered)} mode={showZ (modeF ordered)} q[{commaJoin qouts}]"
       "ok " ++ bar (outs.reverse ++ [last])
 
+/-- `a`, `s<hex>` or 16 hex digits. -/
+def parseOp (w : String) : Option NumOp :=
+  if w = "a" then some .analyze
+  else if w.startsWith "s" then (Hex.dec (w.drop 1).toString).map NumOp.sample
+  else (parseHex64 w).map NumOp.samplef
+
+def maxRanks : Nat := 64
+
+/-- The accessors of one `Analyze()` result. -/
+def dumpView (view : List F64) (ps : List F64) : Option String :=
+  let n := view.length
+  let q := fun p => match quantileF view p with
+    | .ok v => some (showZ v)
+    | .error _ => none
+  match ps.mapM q, ((List.range (min n maxRanks)).map (rankProb n)).mapM q with
+  | some qouts, some ranks =>
+    some s!"A median={showZ (medianF view)} mode={showZ (modeF view)} q[{commaJoin qouts}] ranks[{commaJoin ranks}]"
+  | _, _ => none
+
+def sameView (a b : List F64) : Bool := a.length == b.length && (a.zip b).all fun (x, y) => sameF x y
+
+def runHist (keep rev : Bool) (ops : List NumOp) (ps : List F64) : String :=
+  let (_, _, outs, bad, pan) := ops.foldl (fun (acc : NumF × List F64 × List String × Bool × Bool) op =>
+    let (s, seen, outs, bad, pan) := acc
+    let (s', view) := NumF.stepOp keep rev s op
+    let seen := match op.value? with
+      | some v => seen ++ [v]
+      | none => seen
+    match view with
+    | none => (s', seen, dumpState s' :: outs, bad, pan)
+    | some o =>
+      let spec := analyzeF rev (keptOf keep seen)
+      match dumpView o ps with
+      | some d => (s', seen, d :: outs, bad || !sameView o spec, pan)
+      | none => (s', seen, outs, bad, true)) (NumF.new, [], [], false, false)
+  if pan then "panic"
+  else if bad then "model-vs-spec " ++ bar outs.reverse
+  else "ok " ++ bar outs.reverse
+
 def handle : List String → Option String
+  | ["agg", "numh", keep, rev, os, ps] => some <|
+    match (if os = "." then some [] else (os.splitOn ";").mapM parseOp),
+          (if ps = "." then some [] else (ps.splitOn ",").mapM parseHex64) with
+    | some ops, some ps => runHist (keep == "1") (rev == "1") ops ps
+    | _, _ => "bad-args"
   | ["agg", "numf", keep, rev, h, qs] => some <|
     match decHexList h with
     | some hist =>
